@@ -1,4 +1,5 @@
 import re
+import sys
 from typing import Any, List, Optional, Type
 
 from rimu import options, spans
@@ -102,7 +103,11 @@ def render(text: str, silent: bool = False) -> str:
                         # Unescape escaped macro parameters.
                         return mr[0][1:]
                     p1 = mr[1]
-                    p2 = int(mr[2])
+                    try:
+                        p2 = int(mr[2])
+                    except ValueError:
+                        # int() refuses digit strings of several thousand characters: no such parameter.
+                        p2 = sys.maxsize
                     p3 = mr[3] or ''
                     p4 = mr[4] or ''
                     if p2 == 0:
